@@ -109,6 +109,9 @@ package kv
 //@   modifies nothing
 //@   ensures imp(err == nil, result0 != nil && fresh(result0) && result0.Cursor != nil && fresh(result0.Cursor) && gf(result0.Cursor, "snap") == *d.crdt.Mast && 0 <= seqN(*d.crdt.Mast) && seqN(*d.crdt.Mast) == mastSize(*d.crdt.Mast) && 0 <= gf(result0.Cursor, "pos") && gf(result0.Cursor, "pos") <= seqN(*d.crdt.Mast))
 //@   ensures imp(err != nil, result0 == nil)
+//@   ensures seq-in-tree: forall i int :: imp(err == nil && 0 <= i && i < seqN(*d.crdt.Mast) && seqValTag(*d.crdt.Mast, i) == iface(crdtpub.Value{}).tag, has(T(*d.crdt.Mast), akey(iface2(seqKeyTag(*d.crdt.Mast, i), seqKeyBox(*d.crdt.Mast, i)))) && T(*d.crdt.Mast)[akey(iface2(seqKeyTag(*d.crdt.Mast, i), seqKeyBox(*d.crdt.Mast, i)))] == iface2(seqValTag(*d.crdt.Mast, i), seqValBox(*d.crdt.Mast, i)).(crdtpub.Value))
+//@   ensures one-position-per-key: forall i int :: imp(err == nil && 0 <= i && i < seqN(*d.crdt.Mast), seqIdx(*d.crdt.Mast, akey(iface2(seqKeyTag(*d.crdt.Mast, i), seqKeyBox(*d.crdt.Mast, i)))) == i)
+//@   ensures tree-in-seq: forall a int :: imp(err == nil && has(T(*d.crdt.Mast), a), 0 <= seqIdx(*d.crdt.Mast, a) && seqIdx(*d.crdt.Mast, a) < seqN(*d.crdt.Mast) && akey(iface2(seqKeyTag(*d.crdt.Mast, seqIdx(*d.crdt.Mast, a)), seqKeyBox(*d.crdt.Mast, seqIdx(*d.crdt.Mast, a)))) == a)
 
 // Get unwraps the entry at the cursor (every entry of a crdt tree is a crdt.Value)
 //@ spec valueTag() int = iface(crdtpub.Value{}).tag
